@@ -39,6 +39,7 @@ class FakeRel:
         self.seq = 0
         self.aborted = False
         self.errors = []
+        self.error_log = []  # (virtual time, exception)
 
     def read(self, sock, cb):
         self.readers.append([sock, cb])
@@ -84,6 +85,7 @@ class FakeRel:
                         raise
                     except Exception as e:  # noqa: BLE001 - escapes into the third-party loop
                         self.errors.append(e)
+                        self.error_log.append((s.now, e))
                         keep = False
                     if not keep and r in self.readers:
                         self.readers.remove(r)
@@ -97,6 +99,7 @@ class FakeRel:
                         raise
                     except Exception as e:  # noqa: BLE001
                         self.errors.append(e)
+                        self.error_log.append((s.now, e))
                         again = False
                     if again:
                         self.timeout(t[2], t[3], *t[4])
